@@ -72,6 +72,18 @@ def search(_payload):
         want = 0.5 * ref if ref is not None else 0.5
         if got is None or not close(got, F(want)):
             return {'found': True, 'input': f"unitsToUserUnits('50%', {ref}) after calls with other references", 'observed': repr(got), 'expected': repr(want)}
+    for text in ('12em', '3ex', 'auto', '5nm', '7mc', '2mp', '9tp', 'mm5'):
+        for fn, args in (('getLength', (Alt(text), 'width', 300)), ('getLengthInches', (Alt(text), 'width')), ('unitsToUserUnits', (text, 200))):
+            try:
+                got = getattr(pu, fn)(*args)
+            except Exception as e:     # noqa
+                return {'found': True, 'input': f'{fn}({text!r})', 'observed': f'raised {type(e).__name__}: {e}', 'expected': 'None'}
+            if got is not None:
+                return {'found': True, 'input': f'{fn} on the unparsable text {text!r}', 'observed': repr(got), 'expected': 'None'}
+    for ref in (None, 0):
+        got = pu.unitsToUserUnits('50%', ref) if ref is not None else pu.unitsToUserUnits('50%')
+        if ref is None and (got is None or not close(got, F(1, 2))):
+            return {'found': True, 'input': "unitsToUserUnits('50%') without a reference", 'observed': repr(got), 'expected': '0.5'}
     if pu.PX_PER_INCH != 96:
         return {'found': True, 'input': 'PX_PER_INCH', 'observed': repr(pu.PX_PER_INCH), 'expected': '96'}
     return {'found': False}
